@@ -65,7 +65,13 @@ fn holes(t: &str) -> usize {
 fn level(prev: &[String]) -> (Vec<String>, Vec<String>) {
     // fillers derived from the previous level: the programs themselves, and the two call
     // wrappers around them
-    let mut fillers: Vec<String> = vec!["v1".into(), "v2".into(), "g1(v1)".into(), "v2.g2(v1)".into(), "g1(v2)".into(), "v1.g2(v2)".into(), ".g1(v1)".into(), ".v2".into(), ".g1(.v1)".into()];
+    // `w` is used both as a variable and as a function (the two namespaces are separate: a context
+    // can define either, both or neither)
+    let mut fillers: Vec<String> = vec![
+        "v1".into(), "v2".into(), "g1(v1)".into(), "v2.g2(v1)".into(), "g1(v2)".into(), "v1.g2(v2)".into(), ".g1(v1)".into(), ".v2".into(), ".g1(.v1)".into(),
+        "w".into(), "w(v1)".into(), "w(w)".into(), "v1.w(1)".into(),
+    ];
+    let nbase = fillers.len();
     for p in prev {
         fillers.push(format!("({})", p));
         fillers.push(format!("g1({})", p));
@@ -88,7 +94,7 @@ fn level(prev: &[String]) -> (Vec<String>, Vec<String>) {
             // two holes: the full product over the base fillers, and each derived filler paired with v1/v2
             for (i, f) in fillers.iter().enumerate() {
                 for (j, g) in fillers.iter().enumerate() {
-                    if i < 9 && j < 9 || i < 2 || j < 2 {
+                    if i < nbase && j < nbase || i < 2 || j < 2 {
                         out.push(fill(t, &[f, g]));
                     }
                 }
@@ -100,7 +106,9 @@ fn level(prev: &[String]) -> (Vec<String>, Vec<String>) {
 
 struct Ctx {
     ctx: Context<'static>,
+    /// names defined as variables / as functions (separate namespaces)
     defined: BTreeSet<&'static str>,
+    defined_fn: BTreeSet<&'static str>,
     profile: &'static str,
 }
 
@@ -108,14 +116,27 @@ fn contexts() -> Vec<Ctx> {
     let names = ["v1", "v2", "g1", "g2"];
     let mut v = vec![];
     for profile in ["ints", "collections"] {
-        for mask in 0..16u32 {
+        for mask in 0..64u32 {
             let mut ctx = Context::default();
             let mut defined = BTreeSet::new();
+            let mut defined_fn = BTreeSet::new();
+            if mask & 16 != 0 {
+                defined.insert("w");
+                ctx.add_variable_from_value("w", 1i64);
+            }
+            if mask & 32 != 0 {
+                defined_fn.insert("w");
+                ctx.add_function("w", |_a: cel_interpreter::extractors::Arguments| -> Result<cel_interpreter::Value, ExecutionError> { Ok(cel_interpreter::Value::Int(1)) });
+            }
             for (i, n) in names.iter().enumerate() {
                 if mask & (1 << i) == 0 {
                     continue;
                 }
-                defined.insert(*n);
+                if n.starts_with('g') {
+                    defined_fn.insert(*n);
+                } else {
+                    defined.insert(*n);
+                }
                 match (*n, profile) {
                     ("v1", "ints") => ctx.add_variable_from_value("v1", 1i64),
                     ("v2", "ints") => ctx.add_variable_from_value("v2", 2i64),
@@ -130,7 +151,7 @@ fn contexts() -> Vec<Ctx> {
                     _ => {}
                 }
             }
-            v.push(Ctx { ctx, defined, profile });
+            v.push(Ctx { ctx, defined, defined_fn, profile });
         }
     }
     v
@@ -242,7 +263,7 @@ fn check_program(run: &mut Run, src: &str, ctxs: &[Ctx]) {
         run.trans(1);
         // references() must not depend on the context: re-read after each execution profile
         let premise = vars.iter().all(|v| c.defined.contains(v.as_str()))
-            && funcs.iter().all(|f| c.defined.contains(f.as_str()) || BUILTIN_FUNCS.contains(&f.as_str()) || OPERATORS.contains(&f.as_str()));
+            && funcs.iter().all(|f| c.defined_fn.contains(f.as_str()) || BUILTIN_FUNCS.contains(&f.as_str()) || OPERATORS.contains(&f.as_str()));
         let tag;
         match &r {
             Err(_) => {
@@ -255,14 +276,14 @@ fn check_program(run: &mut Run, src: &str, ctxs: &[Ctx]) {
                 if !vars.iter().any(|v| v == n) && !funcs.iter().any(|f| f == n) {
                     run.fail(
                         &format!("C19|undeclared-name-not-reported|{}", c.profile),
-                        format!("`{}` failed with UndeclaredReference({}) but reports variables {:?} functions {:?} (defined: {:?})", src, n, vars, funcs, c.defined),
+                        format!("`{}` failed with UndeclaredReference({}) but reports variables {:?} functions {:?} (defined: variables {:?} functions {:?})", src, n, vars, funcs, c.defined, c.defined_fn),
                         case(),
                     );
                 }
                 if premise {
                     run.fail(
                         &format!("C19|undeclared-despite-all-defined|{}", c.profile),
-                        format!("`{}` failed with UndeclaredReference({}) although every reported name is defined (variables {:?} functions {:?}, defined {:?})", src, n, vars, funcs, c.defined),
+                        format!("`{}` failed with UndeclaredReference({}) although every reported name is defined (variables {:?} functions {:?}, defined variables {:?} functions {:?})", src, n, vars, funcs, c.defined, c.defined_fn),
                         case(),
                     );
                 }
